@@ -333,8 +333,10 @@ class AppEnv:
 
     def add_dotted_names_stream(self, directory: str = 'dots') -> int:
         """A stream whose media file names contain dots (uploads keep the dots of a file name:
-        "promo_1.5mbps_v1.mp4" is stored as media file "promo_1.5mbps_v1")."""
+        "promo_1.5mbps_v1.mp4" is stored as media file "promo_1.5mbps_v1"), and one whose name has
+        upper-case letters (URLs carry the lower-case Representation id)."""
         files = {'dot_1.5m_v1': FIXTURES / 'bbb' / 'bbb_v7.mp4', 'dot-a.b_a1': FIXTURES / 'bbb' / 'bbb_a1.mp4'}
+        files['Dot_UP_t1'] = FIXTURES / 'bbb' / 'bbb_t1.mp4'
         return self.add_stream(directory, title='Dotted media names', files=files)
 
 
